@@ -207,6 +207,76 @@ def end_of_expr(src, kind, i, stops=',;)'):
 # --------------------------------------------------------------------------
 # text with provenance
 # --------------------------------------------------------------------------
+def _split_top(s, sep=','):
+    out, depth, cur = [], 0, ''
+    for c in s:
+        if c == '{':
+            depth += 1
+        elif c == '}':
+            depth -= 1
+        if c == sep and depth == 0:
+            out.append(cur)
+            cur = ''
+        else:
+            cur += c
+    if cur.strip():
+        out.append(cur)
+    return out
+
+
+def _use_tree(prefix, tree, out):
+    tree = tree.strip()
+    if not tree:
+        return
+    if tree.endswith('}') and '{' in tree:
+        b = tree.index('{')
+        head = tree[:b].strip()
+        if head.endswith('::'):
+            head = head[:-2]
+        pre = (prefix + '::' + head) if (prefix and head) else (prefix or head)
+        for part in _split_top(tree[b + 1:-1]):
+            _use_tree(pre, part, out)
+        return
+    m = re.match(r'^(.*?)\s+as\s+(\w+)$', tree)
+    path, alias = (m.group(1).strip(), m.group(2)) if m else (tree, None)
+    full = (prefix + '::' + path) if prefix else path
+    if path == 'self':
+        full = prefix
+    last = full.split('::')[-1]
+    key = ('*' + full) if last == '*' else (alias or last)
+    out[key] = '|'.join(sorted(set(filter(None, out.get(key, '').split('|'))) | {full}))
+
+
+def parse_imports(src):
+    """top-level `use` declarations of a source file: binding name -> path ('*<path>' for globs).  Declarations inside
+    blocks (function bodies, `mod test { .. }`) are not top-level; those in function bodies travel with the lifted text."""
+    k = mask(src)
+    out = {}
+    depth = 0
+    i, n = 0, len(src)
+    while i < n:
+        if k[i] == CODE:
+            c = src[i]
+            if c == '{':
+                depth += 1
+            elif c == '}':
+                depth -= 1
+            elif depth == 0 and src.startswith('use', i) and (i == 0 or not (src[i - 1].isalnum() or src[i - 1] == '_')) and i + 3 < n and src[i + 3] in ' \t\n':
+                j = i
+                d2 = 0
+                while j < n and not (src[j] == ';' and k[j] == CODE and d2 == 0):
+                    if k[j] == CODE and src[j] == '{':
+                        d2 += 1
+                    elif k[j] == CODE and src[j] == '}':
+                        d2 -= 1
+                    j += 1
+                decl = ''.join(ch for t_, ch in enumerate(src[i + 3:j]) if k[i + 3 + t_] == CODE)
+                _use_tree('', ' '.join(decl.split()), out)
+                i = j
+        i += 1
+    return out
+
+
 class LText:
     """string + per-char origin (source line number or None for woven text)."""
 
@@ -577,6 +647,14 @@ def parse_template(text):
                 buf = []
             items.append(('item', parse_kv(st[len('//@item '):])))
             i += 1
+        elif st.startswith('//@path '):
+            # R14: `//@path <canonical path> => <name in this unit's prelude>`; an identifier that the source file's `use`
+            # declarations bind to that path is written as the prelude name in lifted text
+            mm = re.match(r'^//@path\s+(\S+)\s*=>\s*(\w+)\s*$', st)
+            if not mm:
+                raise LiftError("bad //@path directive: %r" % st)
+            items.append(('path', (mm.group(1), mm.group(2))))
+            i += 1
         elif st.startswith('//@lift '):
             if buf:
                 items.append(('text', '\n'.join(buf) + '\n'))
@@ -746,7 +824,7 @@ def loop_body_open(t, kw_off):
     raise LiftError("loop body not found")
 
 
-def lift_one(d, repo, canary=False, rename_suffix=None):
+def lift_one(d, repo, canary=False, rename_suffix=None, path_map=None):
     h = d.head
     rel = h['file']
     path = os.path.join(repo, rel)
@@ -861,6 +939,22 @@ def lift_one(d, repo, canary=False, rename_suffix=None):
         n = RULES[r](body)
         if n:
             info['rules'][r] = n
+    # R14 import resolution: an identifier that the file's top-level `use` declarations bind to a path for which the unit
+    # declares `//@path <path> => <prelude name>` is written as that prelude name (so `use a::b as c;` or a changed import
+    # of an unchanged name is followed, not silently ignored)
+    info['src_text'] = src[span[0]:span[1]]
+    if path_map:
+        binds = parse_imports(src)
+        for nm, pth in binds.items():
+            tgt = path_map.get(pth)
+            if tgt and tgt != nm and not nm.startswith('*'):
+                offs = [m_.start() for m_ in code_finditer(body.s, body.k, r'(?<![A-Za-z0-9_.:])' + re.escape(nm) + r'(?![A-Za-z0-9_])')]
+                for p_ in reversed(offs):
+                    body.replace(p_, p_ + len(nm), tgt, keep_origin=True)
+                if offs:
+                    info['rules']['R14'] = info['rules'].get('R14', 0) + len(offs)
+                    info.setdefault('imports_followed', []).append({'name': nm, 'path': pth, 'as': tgt, 'count': len(offs)})
+
     # R12 call-argument replacement: the whole argument list of ONE call -- typically a closure that captures `&mut`
     # state, which is lifted separately as a block (L7) -- is replaced, whatever its text is; the anchor locates the call
     # (its first '(' is the call's opening parenthesis), so a change INSIDE the argument does not lose the anchor
@@ -1197,6 +1291,7 @@ def build_unit(template_path, repo, canary=False, include_root=None):
     items = parse_template(text)
     out_lines = []      # (text_line, src_file, src_line)
     infos = []
+    path_map = {pth: nm for k_, (pth, nm) in [it for it in items if it[0] == 'path']}
 
     def emit_text(tx, origin=None):
         for ln in tx.split('\n'):
@@ -1206,6 +1301,8 @@ def build_unit(template_path, repo, canary=False, include_root=None):
         if kind_ == 'text':
             t = val[:-1] if val.endswith('\n') else val
             emit_text(t)
+        elif kind_ == 'path':
+            emit_text('// (R14) %s => %s' % val)
         elif kind_ == 'item':
             # L6: an `enum` / `struct` definition copied from the source; doc comments and attribute lines are dropped
             # (derive lists are re-stated in the directive), `pub(crate)` becomes `pub`.  Variants, discriminants,
@@ -1270,7 +1367,7 @@ def build_unit(template_path, repo, canary=False, include_root=None):
             if canary and val.head.get('canary') != 'skip':
                 variants.append((True, '__canary'))
             for (is_canary, suffix) in variants:
-                lt, info = lift_one(val, repo, canary=is_canary, rename_suffix=suffix)
+                lt, info = lift_one(val, repo, canary=is_canary, rename_suffix=suffix, path_map=path_map)
                 info['is_canary'] = is_canary
                 first_gen = len(out_lines) + 1
                 # split into lines with origin
@@ -1300,8 +1397,56 @@ def build_unit(template_path, repo, canary=False, include_root=None):
     for info in infos:
         a, b = info['gen_lines']
         info['labels'] = {str(i): labels[i] for i in range(a, b + 1) if i in labels}
+    imports = check_imports(template_path, repo, infos, path_map)
+    for info in infos:
+        info.pop('src_text', None)
     return gen, {'functions': infos, 'linemap': linemap, 'labels': labels,
-                 'template': template_path, 'canary': canary}
+                 'template': template_path, 'canary': canary, 'imports': imports}
+
+
+def check_imports(template_path, repo, infos, path_map, record=False):
+    """The lifted text is function text; the meaning of its free identifiers comes from the file's `use` declarations,
+    which are NOT lifted.  Each unit therefore records the top-level import bindings of every file it lifts from
+    (contracts/<unit>/imports.json, written by `lift.py --record-imports` on the unchanged tree).  If a binding whose name
+    occurs in lifted text has changed (added, removed, or now bound to another path) and the unit has no `//@path` mapping
+    for the new path, the unit's prelude no longer describes what the text means: LiftError (exit 2, undecided)."""
+    udir = os.path.dirname(os.path.abspath(template_path))
+    rec_path = os.path.join(udir, 'imports.json')
+    files = sorted(set(i['file'] for i in infos if i.get('src_text') is not None))
+    now = {}
+    for f in files:
+        now[f] = parse_imports(open(os.path.join(repo, f), encoding='utf-8').read())
+    if record:
+        json.dump(now, open(rec_path, 'w'), indent=1, sort_keys=True)
+        return {'recorded': True, 'files': len(files)}
+    if not os.path.exists(rec_path):
+        return {'recorded': False}
+    rec = json.load(open(rec_path))
+    problems, followed = [], []
+    for f in files:
+        r0, n0 = rec.get(f), now[f]
+        if r0 is None:
+            problems.append('%s: no recorded imports' % f)
+            continue
+        texts = [i['src_text'] for i in infos if i['file'] == f and i.get('src_text')]
+        for nm in sorted(set(r0) | set(n0)):
+            if r0.get(nm) == n0.get(nm):
+                continue
+            if nm.startswith('*'):
+                used = True
+            else:
+                rx = re.compile(r'(?<![A-Za-z0-9_])' + re.escape(nm) + r'(?![A-Za-z0-9_])')
+                used = any(rx.search(t) for t in texts)
+            if not used:
+                continue
+            newp = n0.get(nm)
+            if newp is not None and newp in path_map:
+                followed.append('%s: `%s` now bound to %s (followed as %s)' % (f, nm, newp, path_map[newp]))
+                continue
+            problems.append('%s: import of `%s` changed: %s -> %s' % (f, nm, r0.get(nm), newp))
+    if problems:
+        raise LiftError('imports changed for names the lifted text uses (the unit\'s mirror describes the recorded imports): ' + '; '.join(problems))
+    return {'recorded': True, 'files': len(files), 'followed': followed}
 
 
 def main(argv):
@@ -1309,9 +1454,19 @@ def main(argv):
     ap = argparse.ArgumentParser()
     ap.add_argument('template')
     ap.add_argument('--repo', default='/repo')
-    ap.add_argument('--out', required=True)
+    ap.add_argument('--out')
     ap.add_argument('--canary', action='store_true')
+    ap.add_argument('--record-imports', action='store_true')
     a = ap.parse_args(argv)
+    if a.record_imports:
+        text = expand_includes(open(a.template, encoding='utf-8').read(), os.path.dirname(os.path.dirname(os.path.dirname(os.path.abspath(a.template)))))
+        items = parse_template('\n'.join(l for l in text.split('\n') if l.strip() not in ('//@canary-begin', '//@canary-end')))
+        infos = []
+        for k_, v_ in items:
+            if k_ == 'lift':
+                infos.append({'file': v_.head['file'], 'src_text': ''})
+        print(check_imports(a.template, a.repo, infos, {}, record=True))
+        return 0
     try:
         gen, meta = build_unit(a.template, a.repo, canary=a.canary)
     except LiftError as e:
